@@ -109,7 +109,13 @@ class SnTracer:
 
     def note_call(self, which, cid, sensor, time, data):
         name = 'P' if which is self.P else 'Q'
-        ent = [cid, bool(sensor is which), self.t(time), _val(copy.deepcopy(list(data)))]
+        # the sensor handed to the callback is the right one and its series are bounded and aligned right now
+        probes = which.probes
+        n0 = len(which.data[probes[0]])
+        ok = all(len(which.data[p]) == n0 for p in probes) and n0 <= which._data_capacity
+        if 'time' in which.data:
+            ok = ok and len(which.data['time']) == n0
+        ent = [cid, bool(sensor is which and ok), self.t(time), _val(copy.deepcopy(list(data)))]
         (self.pcalls if name == 'P' else self.qcalls).append(ent)
 
     def make_cb(self, s, cid):
